@@ -22,7 +22,10 @@ def gen_cases(rnd, n):
         ncols = rnd.randint(2, 3)
         nrows = rnd.randint(0, 6)
         pool = rnd.sample(['x', 'y', 'z', 'x;y', '10', '9'], rnd.randint(2, 3))
-        A = qgen.gen_table(rnd, nrows=nrows, ncols=ncols, pool=pool, ragged=0.0, none_p=0.0, full_cols=ncols)
+        # one case in ten has None cells: a None sort key cannot be ordered by the host language (TypeError out of finish),
+        # except as a component of a tuple key behind an equal prefix
+        hostile = rnd.random() < 0.1
+        A = qgen.gen_table(rnd, nrows=nrows, ncols=ncols, pool=pool, ragged=0.0, none_p=0.25 if hostile else 0.0, full_cols=0 if hostile else ncols)
         q = {'items': []}
         B = None
         use_join = rnd.random() < 0.25
